@@ -368,7 +368,26 @@ def _run_naive(case, ctx):
         k = 1 + (case["dseed"] // 6) % (2 * sp + 2)
         new = np.round(rng.normal(50, 20, size=k), 3)
         ynew = pd.Series(new, index=_index(n + k, case["off"], case["idx"])[n:])
+        # one absolute horizon OBJECT kept by the caller across the update: time points that are ahead of both cutoffs
+        from sktime.forecasting.base import ForecastingHorizon
+        Hobj = ForecastingHorizon([T_label + k + s_ for s_ in steps], is_relative=False) if not drift_nan else None
+        if Hobj is not None:
+            ok, pb = ctx.call("naive:predict-exception", f.predict, Hobj)
+            if ok:
+                refb = [_naive_ref(yl, strategy, sp, wl, k + h) for h in steps]
+                ctx.check("naive.oos", list(pb.index) == [T_label + k + h for h in steps] and (_close(pb.values, refb, 1e-9, 1e-9) or (strategy == "mean" and sp > 1 and w_eff % sp != 0)),
+                          "naive:kept-absolute-horizon:before-update", "forecast for absolute time points differs from the textbook value", got=pb.values.tolist()[:4], expected=refb[:4])
         ok, _ = ctx.call("naive:update-exception", f.update, ynew, update_params=(then == 2))
+        if ok and Hobj is not None:
+            ok2, pa2 = ctx.call("naive:predict-after-update-exception", f.predict, Hobj)
+            if ok2:
+                yl2_ = yl + [float(v) for v in new]
+                wl2_ = n if (wl is None and then == 1 and strategy != "last") else wl
+                refa = [_naive_ref(yl2_, strategy, sp, wl2_, h) for h in steps]
+                ctx.check("naive.oos", list(pa2.index) == [T_label + k + h for h in steps] and (_close(pa2.values, refa, 1e-9, 1e-9) or (strategy == "mean" and sp > 1 and w_eff % sp != 0)),
+                          "naive:kept-absolute-horizon:after-update:answered-for-the-earlier-cutoff", "the same absolute horizon object asked again after the cutoff moved is not "
+                          "answered for the new cutoff", new_points=k, got=pa2.values.tolist()[:4], expected=refa[:4])
+                ctx.tag("naive:kept-absolute-horizon-object")
         if ok:
             ok, pred2 = ctx.call("naive:predict-after-update-exception", f.predict, steps)
             if ok:
@@ -576,6 +595,27 @@ def _run_sm(case, ctx):
     # the requested time points after the cutoff has moved: new observations without refitting keep the fitted model, whose forecasts are then
     # asked for the time points counted from the NEW cutoff (k steps further along the fitted model's own forecast path)
     then = (case["dseed"] // 2) % 3
+    if then == 2:
+        # one absolute horizon OBJECT kept by the caller while the cutoff moves: asked again after the update it is answered like a newly made
+        # horizon with the same time points (whatever the forecaster's formula - this only compares two ways of asking the same thing)
+        from sktime.forecasting.base import ForecastingHorizon
+        k = 1 + (case["dseed"] // 6) % 5
+        pts = [off + n + k - 1 + s_ for s_ in steps]
+        Hobj = ForecastingHorizon(list(pts), is_relative=False)
+        rng2 = np.random.default_rng([case["dseed"], 115])
+        ynew = pd.Series(y.values[-1] + rng2.normal(0, 1.0, size=k), index=_index(n + k, off, case["idx"])[n:])
+        with warnings.catch_warnings():
+            warnings.simplefilter("ignore")
+            ok, _ = ctx.call("statsmodels:predict-exception:" + kind, f.predict, Hobj)
+            ok = ok and ctx.call("statsmodels:update-exception:" + kind, f.update, ynew, update_params=False)[0]
+            if ok:
+                ok1, p_kept = ctx.call("statsmodels:predict-after-update-exception:" + kind, f.predict, Hobj)
+                ok2, p_new = ctx.call("statsmodels:predict-after-update-exception:" + kind, f.predict, ForecastingHorizon(list(pts), is_relative=False))
+                if ok1 and ok2:
+                    ctx.check("statsmodels", list(p_kept.index) == pts and _close(p_kept.values, p_new.values, 1e-9, scale * 1e-6), "statsmodels:%s:kept-horizon-object-answered-for-the-earlier-cutoff" % kind,
+                              "an absolute horizon object used before an update gives another forecast after it than a newly made horizon with the same time points",
+                              new_points=k, got=np.asarray(p_kept.values).tolist()[:4], expected=np.asarray(p_new.values).tolist()[:4])
+                    ctx.tag("statsmodels:kept-absolute-horizon-object")
     if kind in ("es", "ets") and then == 1:
         k = 1 + (case["dseed"] // 6) % 5
         rng = np.random.default_rng([case["dseed"], 114])
